@@ -44,6 +44,7 @@ def gen_cases(rng, tier, scale):
         pre = []
         if rng.random() < 0.4: pre.append('strict 1')
         if rng.random() < 0.3: pre.append('pi 1')
+        if rng.random() < 0.2: pre.append('dev 1')
         ops = pre + [f'regs {x(n_)} {x(s_)}' for n_, s_ in parts.items()] + [f'regs {x("ctl")} {x(control)}', f'regs {x("main")} {x(t)}']
         D = jtok(data)
         ops += [f'r 0 {x("main")} {D} -1', f'r 2 {x("main")} {D} -1', f'r 0 {x("ctl")} {jtok({"c": [1, 2]})} -1', f'rt 4 {x(t)} {D} -1']
@@ -105,7 +106,9 @@ def oracle(c, io, mo):
     first, second, ctl, direct = obs
     if toks[c['npre'] - 1] != 'ok':
         return None       # the mutated template does not compile: C04's business
-    if key(first) != key(second):
+    import hblib as _hb
+    # two failing hash arguments of one tag: which of the two errors is reported follows HashMap order (finding F12, C16)
+    if key(first) != key(second) and not _hb._hash_err_equal(first, second, c['line']):
         return f'the same render repeated gives a different result: {key(first)} then {key(second)}'
     if key(ctl) != ('ok', '1,2,', None, None):
         return f'after the render the registry no longer renders a control template: {key(ctl)}'
